@@ -35,10 +35,19 @@ impl ReadDoc for Mock {
     fn get_cursor<O: AsRef<ExId>, I: Into<CursorPosition>>(&self, _: O, _: I, _: Option<&[ChangeHash]>) -> Result<Cursor, AutomergeError> { unimplemented!() }
     fn get_cursor_moving<O: AsRef<ExId>, I: Into<CursorPosition>>(&self, _: O, _: I, _: Option<&[ChangeHash]>, _: MoveCursor) -> Result<Cursor, AutomergeError> { unimplemented!() }
     fn get_cursor_position<O: AsRef<ExId>>(&self, _: O, _: &Cursor, _: Option<&[ChangeHash]>) -> Result<usize, AutomergeError> { unimplemented!() }
-    fn get<O: AsRef<ExId>, P: Into<Prop>>(&self, _: O, _: P) -> Result<Option<(Value<'_>, ExId)>, AutomergeError> { unimplemented!() }
+    // the WINNER at any position of any sequence is the integer 7 ...
+    fn get<O: AsRef<ExId>, P: Into<Prop>>(&self, _: O, _: P) -> Result<Option<(Value<'_>, ExId)>, AutomergeError> {
+        Ok(Some((Value::Scalar(std::borrow::Cow::Owned(crate::ScalarValue::Int(7))), ExId::Root)))
+    }
     fn get_at<O: AsRef<ExId>, P: Into<Prop>>(&self, _: O, _: P, _: &[ChangeHash]) -> Result<Option<(Value<'_>, ExId)>, AutomergeError> { unimplemented!() }
     fn hydrate<O: AsRef<ExId>>(&self, _: O, _: Option<&[ChangeHash]>) -> Result<hydrate::Value, AutomergeError> { unimplemented!() }
-    fn get_all<O: AsRef<ExId>, P: Into<Prop>>(&self, _: O, _: P) -> Result<Vec<(Value<'_>, ExId)>, AutomergeError> { unimplemented!() }
+    // ... while the position also holds a conflicting LOSER 1 (get_all lists the loser first, the winner last)
+    fn get_all<O: AsRef<ExId>, P: Into<Prop>>(&self, _: O, _: P) -> Result<Vec<(Value<'_>, ExId)>, AutomergeError> {
+        Ok(vec![
+            (Value::Scalar(std::borrow::Cow::Owned(crate::ScalarValue::Int(1))), ExId::Root),
+            (Value::Scalar(std::borrow::Cow::Owned(crate::ScalarValue::Int(7))), ExId::Root),
+        ])
+    }
     fn get_all_at<O: AsRef<ExId>, P: Into<Prop>>(&self, _: O, _: P, _: &[ChangeHash]) -> Result<Vec<(Value<'_>, ExId)>, AutomergeError> { unimplemented!() }
     fn get_missing_deps(&self, _: &[ChangeHash]) -> Vec<ChangeHash> { unimplemented!() }
     fn get_change_by_hash(&self, _: &ChangeHash) -> Option<Change> { unimplemented!() }
@@ -127,11 +136,21 @@ fn u07_root_map_announces_its_length() {
 // remembers WHICH primitive the value was serialized as and with what payload.  Complete (loop-free) over all
 // Int / Uint / Timestamp / Counter / Boolean / Null values.
 #[derive(PartialEq)]
-enum Seen { I64(i64), U64(u64), Bool(bool), Unit, Other }
+enum Seen { I64(i64), U64(u64), Bool(bool), Unit, Other, Seq { n: usize, last: Option<i64> } }
+struct RecSeq { n: usize, last: Option<i64> }
+impl SerializeSeq for RecSeq {
+    type Ok = Seen; type Error = E;
+    fn serialize_element<T: ?Sized + serde::Serialize>(&mut self, v: &T) -> Result<(), E> {
+        self.last = match v.serialize(RecScalar)? { Seen::I64(i) => Some(i), _ => None };
+        self.n += 1;
+        Ok(())
+    }
+    fn end(self) -> Result<Seen, E> { Ok(Seen::Seq { n: self.n, last: self.last }) }
+}
 struct RecScalar;
 impl serde::Serializer for RecScalar {
     type Ok = Seen; type Error = E;
-    type SerializeSeq = Impossible<Seen, E>; type SerializeTuple = Impossible<Seen, E>; type SerializeTupleStruct = Impossible<Seen, E>;
+    type SerializeSeq = RecSeq; type SerializeTuple = Impossible<Seen, E>; type SerializeTupleStruct = Impossible<Seen, E>;
     type SerializeTupleVariant = Impossible<Seen, E>; type SerializeMap = Impossible<Seen, E>; type SerializeStruct = Impossible<Seen, E>; type SerializeStructVariant = Impossible<Seen, E>;
     fn serialize_bool(self, v: bool) -> Result<Seen, E> { Ok(Seen::Bool(v)) }
     fn serialize_i8(self, v: i8) -> Result<Seen, E> { Ok(Seen::I64(v as i64)) }
@@ -154,7 +173,7 @@ impl serde::Serializer for RecScalar {
     fn serialize_unit_variant(self, _: &'static str, _: u32, _: &'static str) -> Result<Seen, E> { Ok(Seen::Unit) }
     fn serialize_newtype_struct<T: ?Sized + serde::Serialize>(self, _: &'static str, _: &T) -> Result<Seen, E> { Ok(Seen::Other) }
     fn serialize_newtype_variant<T: ?Sized + serde::Serialize>(self, _: &'static str, _: u32, _: &'static str, _: &T) -> Result<Seen, E> { Ok(Seen::Other) }
-    fn serialize_seq(self, _: Option<usize>) -> Result<Self::SerializeSeq, E> { Err(E) }
+    fn serialize_seq(self, _: Option<usize>) -> Result<Self::SerializeSeq, E> { Ok(RecSeq { n: 0, last: None }) }
     fn serialize_tuple(self, _: usize) -> Result<Self::SerializeTuple, E> { Err(E) }
     fn serialize_tuple_struct(self, _: &'static str, _: usize) -> Result<Self::SerializeTupleStruct, E> { Err(E) }
     fn serialize_tuple_variant(self, _: &'static str, _: u32, _: &'static str, _: usize) -> Result<Self::SerializeTupleVariant, E> { Err(E) }
@@ -182,4 +201,17 @@ fn u07_scalar_faithful() {
     let v = AutoSerdeVal { doc: &doc, val: Value::Scalar(std::borrow::Cow::Owned(sv)), obj: ExId::Root };
     let got = serde::Serialize::serialize(&v, RecScalar).unwrap();
     assert!(got == want);
+}
+
+// ---- a list exports exactly `length` elements and each is the WINNER `get` reports, never a conflict loser
+// (trait-contract instance: one-element list whose position holds the values [1 (loser), 7 (winner)])
+#[kani::proof]
+#[kani::unwind(20)]
+fn u07_seq_exports_winners() {
+    let doc = Mock { root_len: 0, other_len: 1 };
+    let ab: [u8; 1] = kani::any();
+    let obj = ExId::Id(kani::any(), crate::ActorId::from(&ab[..]), kani::any());
+    let s = AutoSerdeSeq { doc: &doc, obj };
+    let got = serde::Serialize::serialize(&s, RecScalar).unwrap();
+    assert!(got == Seen::Seq { n: 1, last: Some(7) });
 }
